@@ -49,7 +49,7 @@ var fsFuncs = map[string]bool{
 	"iu.ReadFile": true, "iu.WriteFile": true, "iu.TempFile": true, "iu.TempDir": true, "iu.ReadDir": true,
 }
 
-var nFS int
+var nFS, nReset int
 
 func main() {
 	repo := flag.String("repo", "/repo", "repository root")
@@ -123,6 +123,52 @@ func main() {
 			}
 			ordinal[name]++
 			return name + "#" + strconv.Itoa(ordinal[name])
+		}
+		// 8. reset seam: the package-level mutable state declared in this file can be put back to its initial
+		// value (its initialiser, or the zero value), so that every explored execution starts from a cold package
+		var resetStmts []string
+		exprText := func(e ast.Expr) string {
+			var b bytes.Buffer
+			format.Node(&b, pkg.Fset, e)
+			return b.String()
+		}
+		for _, d := range f.Decls {
+			gd, ok := d.(*ast.GenDecl)
+			if !ok || gd.Tok != token.VAR {
+				continue
+			}
+			for _, sp := range gd.Specs {
+				vs := sp.(*ast.ValueSpec)
+				tracked := false
+				var names []string
+				for _, nm := range vs.Names {
+					if v, ok := pkg.TypesInfo.Defs[nm].(*types.Var); ok && globals[v] {
+						tracked = true
+					}
+					names = append(names, nm.Name)
+				}
+				if !tracked {
+					continue
+				}
+				switch {
+				case len(vs.Values) > 0:
+					var vals []string
+					for _, e := range vs.Values {
+						vals = append(vals, exprText(e))
+					}
+					resetStmts = append(resetStmts, strings.Join(names, ", ")+" = "+strings.Join(vals, ", "))
+				case vs.Type != nil:
+					for _, nm := range names {
+						if nm != "_" {
+							resetStmts = append(resetStmts, nm+" = *new("+exprText(vs.Type)+")")
+						}
+					}
+				}
+			}
+		}
+		if len(resetStmts) > 0 {
+			changed = true
+			nReset += len(resetStmts)
 		}
 		// 4. process seam
 		for _, imp := range f.Imports {
@@ -462,6 +508,9 @@ func main() {
 		if usesTime {
 			src = append(src, []byte("\nvar _ = time.Now\n")...)
 		}
+		if len(resetStmts) > 0 {
+			src = append(src, []byte("\nfunc init() {\n\tverifResets = append(verifResets, func() {\n\t\t"+strings.Join(resetStmts, "\n\t\t")+"\n\t})\n}\n")...)
+		}
 		for _, k := range keepAlive {
 			if k[0] != '_' && k[0] != '.' {
 				src = append(src, []byte("\nvar _ = "+k+"\n")...)
@@ -508,7 +557,7 @@ func main() {
 		"sync_operations": nSync, "sync_operations_not_owned": unowned, "go_statements": nGo, "channel_operations": nChan, "go_statements_owned": nGoOwned, "channel_operations_owned": nChanOwned,
 	}, "", " ")
 	os.WriteFile(filepath.Join(*out, "report.json"), rep, 0o644)
-	fmt.Printf("overlay: %d files, %d/%d map-range sites owned, %d clock calls, %d accesses to %d package-level variables, %d os/exec imports, %d sync operations, %d/%d go statements and %d/%d channel operations owned, %d constructs not owned, "+fmt.Sprint(nFS)+" file-system calls\n",
+	fmt.Printf("overlay: %d files, %d/%d map-range sites owned, %d clock calls, %d accesses to %d package-level variables, %d os/exec imports, %d sync operations, %d/%d go statements and %d/%d channel operations owned, %d constructs not owned, "+fmt.Sprint(nFS)+" file-system calls, "+fmt.Sprint(nReset)+" state resets\n",
 		len(replace), owned, len(sites), nClock, nGlobal, len(globalNames), nExec, nSync, nGoOwned, nGo, nChanOwned, nChan, len(unowned))
 }
 
@@ -649,6 +698,15 @@ import (
 	"sync"
 	"time"
 )
+
+// VerifResetGlobals puts the package-level mutable state back to its initial values.
+var verifResets []func()
+
+func VerifResetGlobals() {
+	for _, f := range verifResets {
+		f()
+	}
+}
 
 // VerifFSHook is called before every file-system call of the package that takes a path.
 var VerifFSHook func(op, path string, write bool)
